@@ -41,7 +41,7 @@ INSTANCES = {
     "D": dict(workers=[1, 1], classes=[1],
               menu=[dict(tasks=[(1, [], 0, 0), (2, [], 0, 0), (3, [], 0, 0)], climit=0, max_fails=-1),
                     dict(tasks=[(1, [], 0, 3), (2, [1], 0, 3)], climit=0, max_fails=-1)],
-              losses=0, cancels=1, fails=0, launch_fails=0, pf_reserve=0, pf_max=1, modes=["any"], tier="thorough", stop_after=900),
+              losses=0, cancels=1, fails=0, launch_fails=0, pf_reserve=0, pf_max=1, modes=["any"], tier="thorough"),
     # a 2-node task among single-node tasks on three workers of two groups: placement, root / non-root loss, cancel, prefill
     "E": dict(workers=[1, 1, 1], groups=["g1", "g1", "g2"], classes=[1, ("mn", 2)],
               menu=[dict(tasks=[(1, [], 0, 0), (2, [], 0, 0)], climit=1, max_fails=-1),
